@@ -1,5 +1,5 @@
 (* Proofs about Model/Imports.v *)
-From TxV Require Import Core.Base Model.Imports.
+From TxV Require Import Core.Base Gen.SrcImports Model.Imports.
 
 (* ------------------------------------------------------------------ dotted names *)
 Lemma rsplit1_nodot n : has_dot n = false -> rsplit1 n = None.
@@ -15,6 +15,14 @@ Proof.
   destruct (rsplit1 s) as [[p' l']|] eqn:E.
   - fold (has_dot s). rewrite (IH _ _ eq_refl). apply orb_true_r.
   - destruct (N.eqb c DOT) eqn:Ec; [|discriminate]. rewrite N.eqb_sym, Ec. reflexivity.
+Qed.
+
+Lemma rsplit1_none_nodot n : rsplit1 n = None -> has_dot n = false.
+Proof.
+  induction n as [|c n IH]; cbn [has_dot existsb rsplit1]; [reflexivity|].
+  destruct (rsplit1 n) as [[p l]|]; [discriminate|].
+  destruct (N.eqb c DOT) eqn:E; [discriminate|]. intros _.
+  rewrite N.eqb_sym, E. cbn [orb]. apply IH. reflexivity.
 Qed.
 
 Lemma rsplit1_qualified q n : has_dot n = false -> rsplit1 (q ++ DOT :: n) = Some (q, n).
@@ -90,6 +98,36 @@ Section AssocLemmas.
   Qed.
 End AssocLemmas.
 
+(* ------------------------------------------------------------------ the source facts *)
+(* Obligations re-proved on every run against Gen/SrcImports.v (translated from the current
+   textx/metamodel.py): the functions driven by the generated facts ARE the documented ones.
+   Each proof computes with the generated definitions, so it fails when the source searches in
+   another order, splits qualified names elsewhere, stops normalising import names, registers
+   imports only on first load, or builds _tx_fqn differently. *)
+Lemma lookup_src_doc s cur name : lookup s cur name = lookup_doc s cur name.
+Proof.
+  unfold lookup, lookup_doc, qualified_split_last, lookup_steps.
+  destruct (rsplit1 name) as [[q n]|]; [reflexivity|].
+  cbn [run_steps skipn]. destruct (lookup_in s cur name); [reflexivity|].
+  destruct (first_def s (imports_of s cur) name); reflexivity.
+Qed.
+
+Lemma new_import_src_doc rec stk cur imp s : new_import rec stk cur imp s = new_import_doc rec stk cur imp s.
+Proof. unfold new_import, register_import_always. reflexivity. Qed.
+
+Lemma abs_import_normalised cur imp : abs_import cur imp = norm_dots (rel_import cur imp).
+Proof. unfold abs_import, normalise_import. reflexivity. Qed.
+
+Lemma initial_imports_base : initial_imports = [BASE].
+Proof. reflexivity. Qed.
+
+Lemma fqn_src_doc c : fqn c = fqn_doc c.
+Proof.
+  unfold fqn, fqn_doc, fqn_bare, fqn_ns_whole, fqn_sep, mem_str. cbn [existsb]. rewrite orb_false_r.
+  change [95; 95; 98; 97; 115; 101; 95; 95]%N with BASE.
+  destruct (str_eqb (c_ns c) BASE); reflexivity.
+Qed.
+
 (* ------------------------------------------------------------------ __getitem__ *)
 Lemma first_def_some s nss name c :
   first_def s nss name = Some c <->
@@ -134,7 +172,7 @@ Lemma lookup_unqualified s cur name c : has_dot name = false ->
                        /\ (forall j, In j pre -> lookup_in s j name = None)
                        /\ lookup_in s i name = Some c)).
 Proof.
-  intro Hd. unfold lookup. rewrite (rsplit1_nodot _ Hd).
+  intro Hd. rewrite lookup_src_doc. unfold lookup_doc. rewrite (rsplit1_nodot _ Hd).
   destruct (lookup_in s cur name) as [c'|] eqn:E.
   - split; [intro H; left; exact H | intros [H|[H _]]; [exact H | discriminate]].
   - rewrite first_def_some. split; [intro H; right; split; [reflexivity | exact H] | intros [H|[_ H]]; [discriminate | exact H]].
@@ -144,7 +182,7 @@ Lemma lookup_unqualified_none s cur name : has_dot name = false ->
   (lookup s cur name = None <->
    lookup_in s cur name = None /\ forall j, In j (imports_of s cur) -> lookup_in s j name = None).
 Proof.
-  intro Hd. unfold lookup. rewrite (rsplit1_nodot _ Hd).
+  intro Hd. rewrite lookup_src_doc. unfold lookup_doc. rewrite (rsplit1_nodot _ Hd).
   destruct (lookup_in s cur name) as [c'|] eqn:E.
   - split; [discriminate | intros [H _]; discriminate].
   - rewrite first_def_none. split; [intro H; split; [reflexivity | exact H] | intros [_ H]; exact H].
@@ -153,7 +191,7 @@ Qed.
 (* A qualified name selects the named namespace's rule, whatever the current namespace and
    its imports are. *)
 Lemma lookup_qualified s cur q n : has_dot n = false -> lookup s cur (q ++ DOT :: n) = lookup_in s q n.
-Proof. intro Hd. unfold lookup. rewrite (rsplit1_qualified _ _ Hd). reflexivity. Qed.
+Proof. intro Hd. rewrite lookup_src_doc. unfold lookup_doc. rewrite (rsplit1_qualified _ _ Hd). reflexivity. Qed.
 
 (* ------------------------------------------------------------------ the cyclic-import defect *)
 Lemma cycle_silent_wrong :
@@ -192,7 +230,7 @@ Section LoadRel.
   Lemma new_import_rel rec stk cur imp s :
     (forall a t, R t (rec a t)) -> R s (new_import rec stk cur imp s).
   Proof.
-    intro Hrec. unfold new_import. destruct (has_err s) eqn:He; [apply R_refl|].
+    intro Hrec. rewrite new_import_src_doc. unfold new_import_doc. destruct (has_err s) eqn:He; [apply R_refl|].
     apply has_err_false in He.
     set (a := abs_import cur imp).
     set (s1 := if has_ns s a then if mem_str a stk then note_back cur a s else s else rec a (enter a s)).
@@ -305,6 +343,7 @@ Record grow (s s' : st) : Prop := {
   g_lk : forall a n, lookup_in s a n <> None -> lookup_in s' a n <> None;
   g_done : incl (done s) (done s');
   g_backs : backs s' = [] -> backs s = [];
+  g_backs_incl : incl (backs s) (backs s');
   g_err : serr s' = None -> serr s = None;
   g_links : incl (links s) (links s');
   g_loads : incl (loads s) (loads s') }.
@@ -314,7 +353,7 @@ Proof. constructor; auto using incl_refl. Qed.
 
 Lemma grow_trans a b c : grow a b -> grow b c -> grow a c.
 Proof.
-  intros [A1 A2 A3 A4 A5 A6 A7] [B1 B2 B3 B4 B5 B6 B7]. constructor; eauto using incl_tran.
+  intros [A1 A2 A3 A4 A4' A5 A6 A7] [B1 B2 B3 B4 B4' B5 B6 B7]. constructor; eauto using incl_tran.
 Qed.
 
 Lemma app_nil_inv {A} (l l' : list A) : l ++ l' = [] -> l = [].
@@ -330,7 +369,7 @@ Proof.
     + intros k Hk. rewrite has_ns_enter, Hk. reflexivity.
     + intros b n H. rewrite lookup_in_enter by exact Hn. exact H.
   - intros cur a t He. constructor; cbn; auto using incl_refl.
-  - intros cur a t He. constructor; cbn; auto using incl_refl. apply app_nil_inv.
+  - intros cur a t He. constructor; cbn; auto using incl_refl; [apply app_nil_inv | apply incl_appl, incl_refl].
   - intros n t He. constructor; cbn; auto using incl_refl. apply incl_appl, incl_refl.
   - intros n f r t He Hf Hr. constructor.
     + intros k Hk. rewrite has_ns_new_class. exact Hk.
@@ -338,6 +377,7 @@ Proof.
       destruct (str_eqb a n && has_ns t n && str_eqb m (rname r)); [discriminate | exact H].
     + unfold new_class. destruct (has_err t); cbn; apply incl_refl.
     + unfold new_class. destruct (has_err t); cbn; auto.
+    + unfold new_class. destruct (has_err t); cbn; apply incl_refl.
     + unfold new_class. destruct (has_err t); cbn; auto.
     + unfold new_class. destruct (has_err t); cbn; apply incl_refl.
     + unfold new_class. destruct (has_err t); cbn; apply incl_refl.
@@ -489,14 +529,17 @@ Section Main.
     forall a, In a (done s) -> forall n, defines fs a n = true -> lookup_in s a n <> None.
   Definition OS (stk : list (list N)) (s : st) : Prop :=
     forall a, has_ns s a = true -> a = BASE \/ In a (done s) \/ In a stk.
-  Definition LK (s : st) : Prop := backs s = [] -> forall l, In l (links s) -> link_ok fs l.
+  Definition LK (s : st) : Prop := safe fs s = true -> forall l, In l (links s) -> link_ok fs l.
   Definition BC (s : st) : Prop := forall n, is_base n = true -> lookup_in s BASE n <> None.
 
   Definition Ready (ns : list N) (f : gfile) (s : st) : Prop :=
     aget ns fs = Some f /\
     (forall r, In r (grules f) -> lookup_in s ns (rname r) <> None) /\
-    imports_of s ns = BASE :: map (abs_import ns) (gimports f) /\
-    (forall a, In a (map (abs_import ns) (gimports f)) -> In a (done s) \/ a = BASE).
+    imports_of s ns = BASE :: map (abs_import ns) (gimports f).
+  (* every import is complete, or cannot be meant by this name *)
+  Definition OkImps (ns : list N) (f : gfile) (s : st) (name : list N) : Prop :=
+    forall a, In a (map (abs_import ns) (gimports f)) ->
+      In a (done s) \/ a = BASE \/ defines fs ns name = true \/ is_base name = true \/ defines fs a name = false.
 
   Lemma defines_base n : defines fs BASE n = false.
   Proof. unfold defines. rewrite Hbase. reflexivity. Qed.
@@ -508,25 +551,28 @@ Section Main.
   Qed.
 
   Lemma first_def_spec s imps name : cls_inv fs s -> DI s -> is_base name = false ->
-    (forall a, In a imps -> In a (done s) \/ a = BASE) ->
+    (forall a, In a imps -> In a (done s) \/ a = BASE \/ defines fs a name = false) ->
     option_map cls_key (first_def s imps name) = option_map (fun i => (i, name)) (first_defining fs imps name).
   Proof.
     intros B D Hn. induction imps as [|a imps IH]; intro Himps; cbn [first_def first_defining]; [reflexivity|].
     assert (IH' := IH (fun x Hx => Himps x (or_intror Hx))). clear IH.
-    destruct (Himps a (or_introl eq_refl)) as [Hd| ->].
+    destruct (Himps a (or_introl eq_refl)) as [Hd|[->|Hnd]].
     - destruct (defines fs a name) eqn:Df.
       + destruct (lookup_in s a name) as [c|] eqn:E; [|exfalso; exact (D a Hd name Df E)].
         apply B in E as (H1 & H2 & _). unfold cls_key. cbn [option_map]. rewrite H1, H2. reflexivity.
       + destruct (lookup_in s a name) as [c|] eqn:E; [|exact IH'].
         apply B in E as (_ & _ & _ & [[_ H]|H]); congruence.
     - rewrite defines_base, (not_base_lookup s name B Hn). exact IH'.
+    - rewrite Hnd. destruct (lookup_in s a name) as [c|] eqn:E; [|exact IH'].
+      apply B in E as (_ & _ & _ & [[_ H]|H]); congruence.
   Qed.
 
-  Lemma ready_lookup ns f s name c : Ready ns f s -> cls_inv fs s -> DI s -> BC s ->
+  Lemma ready_lookup ns f s name c : Ready ns f s -> (rsplit1 name = None -> OkImps ns f s name) ->
+    cls_inv fs s -> DI s -> BC s ->
     lookup s ns name = Some c -> Some (cls_key c) = spec_resolve fs ns name.
   Proof.
-    intros (Hf & Hown & Himp & Hdone) B D Hbc. unfold lookup, spec_resolve.
-    destruct (rsplit1 name) as [[q n]|].
+    intros (Hf & Hown & Himp) Hdone B D Hbc. rewrite lookup_src_doc. unfold lookup_doc, spec_resolve.
+    destruct (rsplit1 name) as [[q n]|] eqn:Er; [|specialize (Hdone eq_refl)].
     - intro E. apply B in E as (H1 & H2 & _ & Hd). unfold cls_key. rewrite H1, H2.
       destruct (defines fs q n); [reflexivity|]. destruct Hd as [[-> Hb]|Hd]; [|discriminate].
       rewrite Hb. replace (str_eqb BASE BASE) with true by (vm_compute; reflexivity). reflexivity.
@@ -543,16 +589,18 @@ Section Main.
         * destruct (lookup_in s BASE name) as [c'|] eqn:E'; [|exfalso; exact (Hbc name Ib E')].
           intro H. inversion H; subst c'. apply B in E' as (H1 & H2 & _). unfold cls_key. rewrite H1, H2. reflexivity.
         * rewrite (not_base_lookup s name B Ib). intro H.
-          pose proof (first_def_spec s _ name B D Ib Hdone) as Hs. rewrite H in Hs. cbn [option_map] in Hs.
+          assert (Hd' : forall a, In a (map (abs_import ns) (gimports f)) -> In a (done s) \/ a = BASE \/ defines fs a name = false).
+          { intros a Ha. destruct (Hdone a Ha) as [X|[X|[X|[X|X]]]]; auto; congruence. }
+          pose proof (first_def_spec s _ name B D Ib Hd') as Hs. rewrite H in Hs. cbn [option_map] in Hs.
           unfold abs_imports. rewrite Hf. destruct (first_defining fs _ name); cbn [option_map] in Hs; [|discriminate].
           inversion Hs. reflexivity.
   Qed.
 
   (* when the look-up fails, the documented resolution has no rule either (unqualified names) *)
-  Lemma ready_lookup_none ns f s name : Ready ns f s -> cls_inv fs s -> DI s -> BC s ->
+  Lemma ready_lookup_none ns f s name : Ready ns f s -> OkImps ns f s name -> cls_inv fs s -> DI s -> BC s ->
     has_dot name = false -> lookup s ns name = None -> spec_resolve fs ns name = None.
   Proof.
-    intros (Hf & Hown & Himp & Hdone) B D Hbc Hd. unfold lookup, spec_resolve. rewrite (rsplit1_nodot _ Hd).
+    intros (Hf & Hown & Himp) Hdone B D Hbc Hd. rewrite lookup_src_doc. unfold lookup_doc, spec_resolve. rewrite (rsplit1_nodot _ Hd).
     destruct (lookup_in s ns name) as [c'|] eqn:E; [discriminate|].
     destruct (defines fs ns name) eqn:Df.
     { exfalso. unfold defines in Df. rewrite Hf in Df. apply mem_str_In in Df. apply in_map_iff in Df as (r & Hr & Hin).
@@ -560,7 +608,9 @@ Section Main.
     rewrite Himp. cbn [first_def]. destruct (is_base name) eqn:Ib.
     - destruct (lookup_in s BASE name) eqn:E'; [discriminate | exfalso; exact (Hbc name Ib E')].
     - rewrite (not_base_lookup s name B Ib). intro H.
-      pose proof (first_def_spec s _ name B D Ib Hdone) as Hs. rewrite H in Hs. cbn [option_map] in Hs.
+      assert (Hd' : forall a, In a (map (abs_import ns) (gimports f)) -> In a (done s) \/ a = BASE \/ defines fs a name = false).
+      { intros a Ha. destruct (Hdone a Ha) as [X|[X|[X|[X|X]]]]; auto; congruence. }
+      pose proof (first_def_spec s _ name B D Ib Hd') as Hs. rewrite H in Hs. cbn [option_map] in Hs.
       unfold abs_imports. rewrite Hf. destruct (first_defining fs _ name); [discriminate | reflexivity].
   Qed.
 End Main.
@@ -636,7 +686,7 @@ Qed.
 
 (* ------------------------------------------------------------------ the main induction *)
 Lemma new_import_err rec stk cur imp s : serr s <> None -> new_import rec stk cur imp s = s.
-Proof. intro H. unfold new_import, has_err. destruct (serr s); [reflexivity | contradiction]. Qed.
+Proof. intro H. rewrite new_import_src_doc. unfold new_import_doc, has_err. destruct (serr s); [reflexivity | contradiction]. Qed.
 
 Lemma fold_imports_err rec stk cur imps : forall s, serr s <> None ->
   fold_left (fun s imp => new_import rec stk cur imp s) imps s = s.
@@ -652,22 +702,28 @@ Section Main2.
   Definition Good (stk : list (list N)) (s : st) : Prop :=
     serr s = None /\ CF fs s /\ BC s /\ DI fs s /\ LK fs s /\ OS stk s.
 
+  Lemma safe_incl s s' : incl (backs s) (backs s') -> safe fs s' = true -> safe fs s = true.
+  Proof.
+    unfold safe. intros Hi H. apply forallb_forall. intros x Hx.
+    rewrite forallb_forall in H. apply H. apply Hi. exact Hx.
+  Qed.
+
   Lemma Good_same stk s s' :
     spaces s' = spaces s -> akeys (imported s') = akeys (imported s) -> created s' = created s ->
-    done s' = done s -> links s' = links s -> serr s' = serr s -> (backs s' = [] -> backs s = []) ->
+    done s' = done s -> links s' = links s -> serr s' = serr s -> incl (backs s) (backs s') ->
     Good stk s -> Good stk s'.
   Proof.
     intros Hs Hi Hc Hd Hl He Hb (G1 & G2 & G3 & G4 & G5 & G6).
     split; [congruence|]. split; [eapply CF_same; eassumption|].
     unfold BC, DI, LK, OS, lookup_in, has_ns in *. rewrite Hs, Hd, Hl.
     split; [exact G3|]. split; [exact G4|]. split; [|exact G6].
-    intros Hb'. apply G5. apply Hb. exact Hb'.
+    intros Hb'. apply G5. exact (safe_incl _ _ Hb Hb').
   Qed.
 
   Definition Mid (stk : list (list N)) (ns : list N) (s0 : st) (pre : list (list N)) (t : st) : Prop :=
     Good (ns :: stk) t /\ has_ns t ns = true /\
     imports_of t ns = BASE :: map (abs_import ns) pre /\
-    (backs t = [] -> forall a, In a (map (abs_import ns) pre) -> In a (done t) \/ a = BASE) /\
+    (forall a, In a (map (abs_import ns) pre) -> In a (done t) \/ a = BASE \/ In (ns, a) (backs t)) /\
     (forall k, has_ns s0 k = true -> k <> ns -> has_ns t k = true /\ imports_of t k = imports_of s0 k) /\
     (forall a, In a (map (abs_import ns) pre) -> has_ns t a = true).
 
@@ -690,7 +746,7 @@ Section Main2.
   Proof.
     intros IH (HG & Hns & Himp & Hdone & Hframe & Hhas).
     pose proof HG as (He & Hcf & Hbc & Hdi & Hlk & Hos).
-    unfold new_import. rewrite (proj2 (has_err_false t) He).
+    rewrite new_import_src_doc. unfold new_import_doc. rewrite (proj2 (has_err_false t) He).
     set (a := abs_import ns imp).
     assert (Hpre : map (abs_import ns) (pre ++ [imp]) = map (abs_import ns) pre ++ [a]) by (rewrite map_app; reflexivity).
     destruct (has_ns t a) eqn:Ha.
@@ -699,21 +755,25 @@ Section Main2.
       assert (E1 : spaces s1 = spaces t /\ imported s1 = imported t /\ created s1 = created t /\ done s1 = done t
                     /\ links s1 = links t /\ serr s1 = serr t) by (unfold s1; destruct (mem_str a (ns :: stk)); repeat split; reflexivity).
       destruct E1 as (E1 & E2 & E3 & E4 & E5 & E6).
-      assert (Eb : backs s1 = [] -> backs t = [] /\ mem_str a (ns :: stk) = false).
-      { unfold s1. destruct (mem_str a (ns :: stk)); cbn [backs note_back]; intro H; [|split; [exact H | reflexivity]].
-        apply app_nil_inv in H as H'. destruct (backs t); discriminate. }
+      assert (Eb : incl (backs t) (backs s1) /\ (mem_str a (ns :: stk) = true -> In (ns, a) (backs s1))).
+      { unfold s1. destruct (mem_str a (ns :: stk)); cbn [backs note_back]; split.
+        - apply incl_appl, incl_refl.
+        - intros _. apply in_or_app. right. left. reflexivity.
+        - apply incl_refl.
+        - discriminate. }
       rewrite (proj2 (has_err_false s1)) by congruence. intros _.
       assert (HG1 : Good (ns :: stk) s1).
-      { apply (Good_same _ t); try congruence. intro H. apply Eb in H. apply H. }
+      { apply (Good_same _ t); try congruence. apply Eb. }
       split; [|split; [|split; [|split; [|split]]]].
-      + apply (Good_same _ s1); try reflexivity; [|auto|exact HG1]. cbn [imported add_imported]. apply akeys_aupd.
+      + apply (Good_same _ s1); try reflexivity; [|apply incl_refl|exact HG1]. cbn [imported add_imported]. apply akeys_aupd.
       + unfold has_ns in *. cbn [spaces add_imported]. rewrite E1. exact Hns.
       + rewrite imports_of_add_same by (rewrite E2; eapply imports_some; exact Himp).
         unfold imports_of in *. rewrite E2, Himp, Hpre. reflexivity.
-      + cbn [backs done add_imported]. intros Hb x Hx. apply Eb in Hb as [Hb Hm]. rewrite E4.
-        rewrite Hpre in Hx. apply in_app_or in Hx as [Hx|[<-|[]]]; [apply Hdone; assumption|].
-        destruct (Hos a Ha) as [H|[H|H]]; [right; exact H | left; exact H|].
-        apply mem_str_In in H. congruence.
+      + cbn [backs done add_imported]. intros x Hx. destruct Eb as [Eb1 Eb2]. rewrite E4.
+        rewrite Hpre in Hx. apply in_app_or in Hx as [Hx|[<-|[]]].
+        * destruct (Hdone x Hx) as [H|[H|H]]; [left; exact H | right; left; exact H | right; right; apply Eb1; exact H].
+        * destruct (Hos a Ha) as [H|[H|H]]; [right; left; exact H | left; exact H|].
+          right; right. apply Eb2. apply mem_str_In. exact H.
       + intros k Hk Hne. destruct (Hframe k Hk Hne) as [F1 F2]. split.
         * unfold has_ns in *. cbn [spaces add_imported]. rewrite E1. exact F1.
         * rewrite imports_of_add_other by exact Hne. unfold imports_of in *. rewrite E2. exact F2.
@@ -745,15 +805,15 @@ Section Main2.
       assert (Hi_ns : imports_of s1 ns = imports_of t ns).
       { rewrite (Hf2 ns Hns1 Hne). apply imports_of_enter_old. eapply imports_some; exact Himp. }
       split; [|split; [|split; [|split; [|split]]]].
-      + apply (Good_same _ s1); try reflexivity; [|auto|exact HG2]. cbn [imported add_imported]. apply akeys_aupd.
+      + apply (Good_same _ s1); try reflexivity; [|apply incl_refl|exact HG2]. cbn [imported add_imported]. apply akeys_aupd.
       + unfold has_ns. cbn [spaces add_imported]. apply (g_ns _ _ Hgr). exact Hns1.
       + rewrite imports_of_add_same.
         * rewrite Hi_ns, Himp, Hpre. reflexivity.
         * apply (sync_has_ns s1 ns); [apply HG2 | apply (g_ns _ _ Hgr); exact Hns1].
-      + cbn [backs done add_imported]. intros Hb x Hx. rewrite Hpre in Hx.
+      + cbn [backs done add_imported]. intros x Hx. rewrite Hpre in Hx.
         apply in_app_or in Hx as [Hx|[<-|[]]]; [|left; exact Hd2].
-        assert (Hbt : backs t = []) by (apply (g_backs _ _ Hgr) in Hb; exact Hb).
-        destruct (Hdone Hbt x Hx) as [H|H]; [left; apply (g_done _ _ Hgr); exact H | right; exact H].
+        destruct (Hdone x Hx) as [H|[H|H]]; [left; apply (g_done _ _ Hgr); exact H | right; left; exact H|].
+        right; right. apply (g_backs_incl _ _ Hgr). exact H.
       + intros k Hk Hnk. destruct (Hframe k Hk Hnk) as [F1 F2].
         assert (Hk1 : has_ns t1 k = true) by (unfold t1; rewrite has_ns_enter, F1; reflexivity).
         split.
@@ -803,8 +863,8 @@ Section Main2.
         rewrite X in He2. congruence. }
       (* imports *)
       assert (HM0 : Mid stk ns s [] s0).
-      { split; [apply (Good_same _ s); try reflexivity; auto|].
-        split; [exact Hns|]. split; [exact Himp|]. split; [intros _ a []|].
+      { split; [apply (Good_same _ s); try reflexivity; [apply incl_refl | exact HG]|].
+        split; [exact Hns|]. split; [exact Himp|]. split; [intros a []|].
         split; [|intros a []]. intros k Hk _. split; [exact Hk | reflexivity]. }
       pose proof (import_fold fuel stk ns s IH (gimports f) [] s0 HM0 He1) as HM1. fold s1 in HM1. cbn [app] in HM1.
       destruct HM1 as (HG1 & Hns1 & Himp1 & Hdone1 & Hframe1 & Hhas1).
@@ -817,10 +877,15 @@ Section Main2.
         intros n g r t. apply CF_new_class. }
       assert (Hbc2 : BC s2) by (intros n Hn; apply C7, Hbc1; exact Hn).
       assert (Hdi2 : DI fs s2) by (intros a Ha n Hn; apply C7; rewrite C2 in Ha; exact (Hdi1 a Ha n Hn)).
-      assert (Hready : backs s2 = [] -> Ready fs ns f s2).
-      { intro Hb. split; [exact Hf|]. split; [exact C8|]. split.
-        - unfold imports_of in *. rewrite C5. exact Himp1.
-        - intros a Ha. rewrite C2. apply Hdone1; [rewrite <- C4; exact Hb | exact Ha]. }
+      assert (Hready : Ready fs ns f s2).
+      { split; [exact Hf|]. split; [exact C8|]. unfold imports_of in *. rewrite C5. exact Himp1. }
+      assert (Hok : safe fs s2 = true -> forall n, In n (file_names f) -> rsplit1 n = None -> OkImps fs ns f s2 n).
+      { intros Hb n Hn Hr a Ha. rewrite C2. destruct (Hdone1 a Ha) as [H|[H|H]]; [left; exact H | right; left; exact H|].
+        right; right. unfold safe in Hb. rewrite forallb_forall in Hb. rewrite <- C4 in H. specialize (Hb _ H).
+        unfold safe_back in Hb. cbn [fst snd] in Hb. rewrite Hf in Hb. rewrite forallb_forall in Hb. specialize (Hb n Hn).
+        rewrite (rsplit1_none_nodot n Hr) in Hb. cbn [orb] in Hb.
+        destruct (defines fs ns n); [left; reflexivity|]. destruct (is_base n); [right; left; reflexivity|].
+        cbn [orb] in Hb. right; right. destruct (defines fs a n); [discriminate | reflexivity]. }
       (* second pass *)
       destruct (second_pass_cases ns f s2 He2) as [[e Hsp]|(Hsp & U1 & U2)];
         [rewrite Hsp in Hfin; cbn [serr set_err] in Hfin; discriminate|].
@@ -833,16 +898,19 @@ Section Main2.
           -- exact (Hdi2 a Ha n Hn).
           -- change (lookup_in s2 ns n <> None). unfold defines in Hn. rewrite Hf in Hn. apply mem_str_In in Hn.
              apply in_map_iff in Hn as (r & <- & Hr). apply C8. exact Hr.
-        * intros Hb l Hl. cbn [backs links log_done add_links] in Hb, Hl. apply in_app_or in Hl as [Hl|Hl].
-          -- apply Hlk1; [rewrite <- C4; exact Hb | rewrite <- C3; exact Hl].
+        * intros Hb l Hl. assert (Hb2 : safe fs s2 = true) by exact Hb.
+          cbn [links log_done add_links] in Hl. apply in_app_or in Hl as [Hl|Hl].
+          -- apply Hlk1; [unfold safe in *; rewrite <- C4; exact Hb2 | rewrite <- C3; exact Hl].
           -- assert (Ht : l_target l <> None).
              { destruct (l_cref l) eqn:Ec; [exact (unresolved_nil _ _ U2 l Hl Ec) | exact (unresolved_nil _ _ U1 l Hl Ec)]. }
-             assert (Hshape : l_ns l = ns /\ l_target l = lookup s2 ns (l_name l)).
-             { unfold ls in Hl. apply in_flat_map in Hl as (r & _ & Hl). unfold links_of_rule in Hl.
-               apply in_app_or in Hl as [Hl|Hl]; apply in_map_iff in Hl as (n & <- & _); split; reflexivity. }
-             destruct Hshape as [Hn Htg]. unfold link_ok. rewrite Hn.
+             assert (Hshape : l_ns l = ns /\ l_target l = lookup s2 ns (l_name l) /\ In (l_name l) (file_names f)).
+             { unfold ls in Hl. apply in_flat_map in Hl as (r & Hr & Hl). unfold links_of_rule in Hl.
+               apply in_app_or in Hl as [Hl|Hl]; apply in_map_iff in Hl as (n & <- & Hn); cbn [l_ns l_target l_name];
+                 (split; [reflexivity|]; split; [reflexivity|]); unfold file_names; apply in_flat_map; exists r;
+                 (split; [exact Hr|]); apply in_or_app; [left | right]; exact Hn. }
+             destruct Hshape as (Hn & Htg & Hfn). unfold link_ok. rewrite Hn.
              destruct (l_target l) as [c|] eqn:Et; [|contradiction]. cbn [option_map].
-             eapply (ready_lookup fs Hbase); [apply Hready; exact Hb | apply Hcf2 | exact Hdi2 | exact Hbc2 | symmetry; exact Htg].
+             eapply (ready_lookup fs Hbase); [exact Hready | apply Hok; assumption | apply Hcf2 | exact Hdi2 | exact Hbc2 | symmetry; exact Htg].
         * intros a Ha. change (has_ns s2 a = true) in Ha. rewrite C6 in Ha.
           cbn [done log_done add_links]. destruct (Hos1 a Ha) as [H|[H|[H|H]]].
           -- left; exact H.
@@ -903,11 +971,15 @@ Section Top.
     split; [exact A|]. split; [exact B | exact D].
   Qed.
 
-  (* every reference recorded by a second pass is the documented one, when no grammar
-     imports a grammar that is still being loaded *)
-  Lemma links_spec : serr (load_main fs main) = None -> backs (load_main fs main) = [] ->
+  (* every reference recorded by a second pass is the documented one, when every followed
+     import of a grammar still being loaded is harmless ([safe]); in particular when there is none *)
+  Lemma links_spec_safe : serr (load_main fs main) = None -> safe fs (load_main fs main) = true ->
     forall l, In l (links (load_main fs main)) -> link_ok fs l.
   Proof. intros He Hb. destruct (main_result He) as ((_ & _ & _ & _ & Hlk & _) & _). apply Hlk. exact Hb. Qed.
+
+  Lemma links_spec : serr (load_main fs main) = None -> backs (load_main fs main) = [] ->
+    forall l, In l (links (load_main fs main)) -> link_ok fs l.
+  Proof. intros He Hb. apply links_spec_safe; [exact He|]. unfold safe. rewrite Hb. reflexivity. Qed.
 
   Lemma main_file : serr (load_main fs main) = None -> exists f, aget main fs = Some f.
   Proof.
@@ -915,31 +987,32 @@ Section Top.
     destruct (aget main fs) as [f|]; [intros _; exists f; reflexivity | cbn [serr set_err]; discriminate].
   Qed.
 
-  Lemma main_ready : serr (load_main fs main) = None -> exists f, Ready fs main f (load_main fs main).
+  Lemma main_ready : serr (load_main fs main) = None ->
+    exists f, Ready fs main f (load_main fs main) /\ forall name, OkImps fs main f (load_main fs main) name.
   Proof.
     intro He. destruct (main_file He) as [f Hf]. exists f.
     destruct (main_result He) as ((_ & _ & _ & Hdi & _ & Hos) & Hd & Himp).
     destruct (Himp f Hf) as [Hi Hh].
-    split; [exact Hf|]. split; [|split; [exact Hi|]].
+    split; [split; [exact Hf|]; split; [|exact Hi]|].
     - intros r Hr. apply (Hdi main Hd). eapply defines_rule; eassumption.
-    - intros a Ha. destruct (Hos a (Hh a Ha)) as [H|[H|[]]]; [right; exact H | left; exact H].
+    - intros name a Ha. destruct (Hos a (Hh a Ha)) as [H|[H|[]]]; [right; left; exact H | left; exact H].
   Qed.
 
   (* metamodel[name] after a successful load, cycles or not *)
   Lemma final_lookup : serr (load_main fs main) = None -> forall name c,
     lookup (load_main fs main) main name = Some c -> Some (cls_key c) = spec_resolve fs main name.
   Proof.
-    intros He name c H. destruct (main_ready He) as [f Hr].
+    intros He name c H. destruct (main_ready He) as (f & Hr & Hok).
     destruct (main_result He) as ((_ & Hcf & Hbc & Hdi & _) & _).
-    eapply (ready_lookup fs Hbase); [exact Hr | apply Hcf | exact Hdi | exact Hbc | exact H].
+    eapply (ready_lookup fs Hbase); [exact Hr | intros _; apply Hok | apply Hcf | exact Hdi | exact Hbc | exact H].
   Qed.
 
   Lemma final_lookup_none : serr (load_main fs main) = None -> forall name, has_dot name = false ->
     lookup (load_main fs main) main name = None -> spec_resolve fs main name = None.
   Proof.
-    intros He name Hd H. destruct (main_ready He) as [f Hr].
+    intros He name Hd H. destruct (main_ready He) as (f & Hr & Hok).
     destruct (main_result He) as ((_ & Hcf & Hbc & Hdi & _) & _).
-    eapply (ready_lookup_none fs Hbase); [exact Hr | apply Hcf | exact Hdi | exact Hbc | exact Hd | exact H].
+    eapply (ready_lookup_none fs Hbase); [exact Hr | apply Hok | apply Hcf | exact Hdi | exact Hbc | exact Hd | exact H].
   Qed.
 
   (* the class tables: a class sits under its own name in the namespace of its file and
@@ -948,7 +1021,7 @@ Section Top.
     c_ns c = a /\ c_name c = n /\ fqn c = (if str_eqb a BASE then n else a ++ DOT :: n).
   Proof.
     intros a n c H. destruct CF_main as (_ & B & _). apply B in H as (H1 & H2 & _).
-    split; [exact H1|]. split; [exact H2|]. unfold fqn. rewrite H1, H2. reflexivity.
+    split; [exact H1|]. split; [exact H2|]. rewrite fqn_src_doc. unfold fqn_doc. rewrite H1, H2. reflexivity.
   Qed.
 
   Lemma classes_distinct : forall a n c a' n' c',
@@ -999,7 +1072,7 @@ Section Once.
   Lemma NL_import fuel stk cur imp t : OnceSpec fuel -> NL t ->
     NL (new_import (load fuel fs stk) stk cur imp t).
   Proof.
-    intros IH H. unfold new_import. destruct (has_err t); [exact H|].
+    intros IH H. rewrite new_import_src_doc. unfold new_import_doc. destruct (has_err t); [exact H|].
     set (a := abs_import cur imp).
     destruct (has_ns t a) eqn:Ha.
     - set (s1 := if mem_str a stk then note_back cur a t else t).
@@ -1095,7 +1168,7 @@ Section Term.
   Lemma term_import fuel stk cur imp t : TermSpec fuel -> NF t -> unl t <= fuel ->
     NF (new_import (load fuel fs stk) stk cur imp t) /\ unl (new_import (load fuel fs stk) stk cur imp t) <= fuel.
   Proof.
-    intros IH Hn Hu. unfold new_import. destruct (has_err t); [split; assumption|].
+    intros IH Hn Hu. rewrite new_import_src_doc. unfold new_import_doc. destruct (has_err t); [split; assumption|].
     set (a := abs_import cur imp).
     destruct (has_ns t a) eqn:Ha.
     - set (s1 := if mem_str a stk then note_back cur a t else t).
@@ -1150,3 +1223,116 @@ Section Term.
     pose proof (unl_le (enter main init)). lia.
   Qed.
 End Term.
+
+(* ------------------------------------------------------------------ classes are created by reading files only *)
+Section Count.
+  Variable fs : list (list N * gfile).
+
+  Notation nrules := (nrules fs).
+  Notation nrules_of := (nrules_of fs).
+
+  Definition Delta (s s' : st) : Prop :=
+    exists new, loads s' = loads s ++ new /\ created s' = created s + nrules_of new.
+
+  Lemma Delta_refl s : Delta s s.
+  Proof. exists []. split; [rewrite app_nil_r; reflexivity | unfold Imports.nrules_of; cbn; lia]. Qed.
+
+  Lemma Delta_trans a b c : Delta a b -> Delta b c -> Delta a c.
+  Proof.
+    intros (n1 & L1 & C1) (n2 & L2 & C2). exists (n1 ++ n2). split.
+    - rewrite L2, L1, app_assoc. reflexivity.
+    - rewrite C2, C1. unfold Imports.nrules_of. rewrite map_app, list_sum_app. lia.
+  Qed.
+
+  Lemma Delta_same s s' : loads s' = loads s -> created s' = created s -> Delta s s'.
+  Proof. intros L C. exists []. split; [rewrite app_nil_r; exact L | unfold Imports.nrules_of; cbn; lia]. Qed.
+
+  Definition CountSpec (fuel : nat) : Prop := forall stk ns s,
+    serr (load fuel fs stk ns s) = None -> Delta s (load fuel fs stk ns s).
+
+  Lemma count_import fuel stk cur imp t : CountSpec fuel ->
+    serr (new_import (load fuel fs stk) stk cur imp t) = None ->
+    Delta t (new_import (load fuel fs stk) stk cur imp t).
+  Proof.
+    intros IH. rewrite new_import_src_doc. unfold new_import_doc. destruct (has_err t); [intros _; apply Delta_refl|].
+    set (a := abs_import cur imp).
+    destruct (has_ns t a) eqn:Ha.
+    - set (s1 := if mem_str a stk then note_back cur a t else t).
+      assert (E : loads s1 = loads t /\ created s1 = created t) by (unfold s1; destruct (mem_str a stk); split; reflexivity).
+      destruct E as [E1 E2]. destruct (has_err s1); intros _; apply Delta_same; cbn [loads created add_imported]; assumption.
+    - set (s1 := load fuel fs stk a (enter a t)).
+      destruct (has_err s1) eqn:He1; [intro H; apply has_err_false in H; congruence|].
+      apply has_err_false in He1. intros _.
+      apply (Delta_trans _ (enter a t)); [apply Delta_same; reflexivity|].
+      apply (Delta_trans _ s1); [apply IH; exact He1 | apply Delta_same; reflexivity].
+  Qed.
+
+  Lemma count_imports fuel stk cur imps : CountSpec fuel -> forall t,
+    serr (fold_left (fun s imp => new_import (load fuel fs stk) stk cur imp s) imps t) = None ->
+    Delta t (fold_left (fun s imp => new_import (load fuel fs stk) stk cur imp s) imps t).
+  Proof.
+    intro IH. induction imps as [|i imps IHi]; intros t He; cbn [fold_left] in *; [apply Delta_refl|].
+    set (t1 := new_import (load fuel fs stk) stk cur i t) in *.
+    assert (He1 : serr t1 = None).
+    { destruct (serr t1) eqn:E; [|reflexivity]. rewrite fold_imports_err in He by (rewrite E; discriminate). congruence. }
+    apply (Delta_trans _ t1); [apply count_import; assumption | apply IHi; exact He].
+  Qed.
+
+  Lemma count_classes ns rs : forall s, serr s = None ->
+    loads (fold_left (fun s r => new_class ns r s) rs s) = loads s /\
+    created (fold_left (fun s r => new_class ns r s) rs s) = created s + length rs.
+  Proof.
+    induction rs as [|r rs IH]; intros s He; cbn [fold_left length]; [split; [reflexivity | lia]|].
+    assert (Hf : has_err s = false) by (apply has_err_false; exact He).
+    assert (He' : serr (new_class ns r s) = None) by (unfold new_class; rewrite Hf; exact He).
+    destruct (IH _ He') as [A B]. rewrite A, B. unfold new_class. rewrite Hf. cbn [loads created]. split; [reflexivity | lia].
+  Qed.
+
+  Lemma load_count : forall fuel, CountSpec fuel.
+  Proof.
+    induction fuel as [|fuel IH]; intros stk ns s; cbn [load];
+      (destruct (has_err s); [intros _; apply Delta_refl|]);
+      (destruct (aget ns fs) as [f|] eqn:Hf; [|cbn [serr set_err]; discriminate]).
+    - cbn [serr set_err]; discriminate.
+    - cbv zeta.
+      set (s0 := log_load ns s).
+      set (s1 := fold_left _ (gimports f) s0).
+      set (s2 := fold_left _ (grules f) s1).
+      intro Hfin.
+      assert (He2 : serr s2 = None).
+      { destruct (serr s2) eqn:E; [|reflexivity]. rewrite second_pass_err in Hfin by (rewrite E; discriminate). congruence. }
+      assert (He1 : serr s1 = None).
+      { destruct (serr s1) eqn:E; [|reflexivity]. exfalso.
+        assert (X : s2 = s1).
+        { unfold s2. generalize (grules f). intro rs. induction rs as [|r rs IHrs]; cbn [fold_left]; [reflexivity|].
+          rewrite new_class_err by (rewrite E; discriminate). exact IHrs. }
+        rewrite X in He2. congruence. }
+      destruct (count_imports fuel (ns :: stk) ns (gimports f) IH s0 He1) as (new & L1 & C1). fold s1 in L1, C1.
+      destruct (count_classes ns (grules f) s1 He1) as [L2 C2]. fold s2 in L2, C2.
+      assert (E : loads (second_pass ns f s2) = loads s2 /\ created (second_pass ns f s2) = created s2).
+      { destruct (second_pass_cases ns f s2 He2) as [[e ->]|[-> _]]; split; reflexivity. }
+      destruct E as [L3 C3].
+      exists (ns :: new). split.
+      + rewrite L3, L2, L1. unfold s0. cbn [loads log_load]. rewrite <- app_assoc. reflexivity.
+      + assert (Hn : nrules ns = length (grules f)) by (unfold Imports.nrules; rewrite Hf; reflexivity).
+        rewrite C3, C2, C1. unfold s0. cbn [created log_load].
+        change (nrules_of (ns :: new)) with (nrules ns + nrules_of new). rewrite Hn. lia.
+  Qed.
+
+  (* a successful load creates, besides the 9 built-in classes, exactly one class per rule of
+     every file read *)
+  Lemma created_count main : serr (load_main fs main) = None ->
+    created (load_main fs main) = length base_names + nrules_of (loads (load_main fs main)).
+  Proof.
+    intro He. unfold load_main in *. destruct (load_count _ _ _ _ He) as (new & L & C).
+    rewrite C, L. reflexivity.
+  Qed.
+End Count.
+
+Lemma one_class_set fs main : main <> BASE ->
+  (forall a n c a' n' c',
+     lookup_in (load_main fs main) a n = Some c -> lookup_in (load_main fs main) a' n' = Some c' ->
+     c_id c = c_id c' -> a = a' /\ n = n') /\
+  (serr (load_main fs main) = None ->
+   created (load_main fs main) = length base_names + nrules_of fs (loads (load_main fs main))).
+Proof. intro H. split; [apply classes_distinct; exact H | apply created_count]. Qed.
